@@ -135,3 +135,33 @@ package dns
 //@   ensures sub:   len(parent) > 0 && len(child) > 0 && !isdot(parent) && !isdot(child) ==> ret0 == (csuf(parent, len(parent), child, len(child)) == nsep(parent, len(parent)-1) + 1)
 //@   ensures rootc: len(parent) > 0 && !isdot(parent) && isdot(child) ==> !ret0
 //@   pure
+
+//@ func PrevLabel [C19]
+//@   requires 0 <= n
+//@   ensures empty: len(s) == 0 ==> i == 0 && start
+//@   ensures zero:  len(s) > 0 && n == 0 ==> i == len(s) && !start
+//@   ensures found: len(s) > 0 && n > 0 && i > 0 ==> !start && sep(s, i-1) && nsep(s, len(s)-1) - nsep(s, i-1) == n
+//@   ensures first: len(s) > 0 && n > 0 && i == 0 && !start ==> nsep(s, len(s)-1) + 1 == n
+//@   ensures over:  len(s) > 0 && n > 0 && start ==> i == 0 && nsep(s, len(s)-1) + 1 < n
+//@   ensures rng:   0 <= i && i <= len(s)
+//@   loop 1 invariant 0-1 <= l && l <= len(s)-1 && 0 < n && n <= old(n) && (s[len(s)-1] == '.' ==> l <= len(s)-2)
+//@   loop 1 invariant cnt: old(n) - n == nsep(s, len(s)-1) - nsep(s, l+1)
+//@   loop 1 decreases l + 1
+//@   loop 2 invariant 0-1 <= j && j < l && (escd(s, l) == (escd(s, j+1) != ((l-j-1) % 2 == 1)))
+//@   loop 2 decreases j + 1
+//@   pure
+
+//@ spec ascii7(s seq) bool = forall k in 0..len(s) :: s[k] < 128
+
+//@ func CanonicalName [C19 C10 C17]
+//@   ensures fq:    ascii7(s) && IsFqdnSpec(s) ==> len(ret0) == len(s) && (forall k in 0..len(s) :: ret0[k] == lower(s[k]))
+//@   ensures nonfq: ascii7(s) && !IsFqdnSpec(s) ==> len(ret0) == len(s) + 1 && ret0[len(s)] == '.' && (forall k in 0..len(s) :: ret0[k] == lower(s[k]))
+//@   pure
+
+//@ func dnsutil.AddOrigin [C19]
+//@   ensures fq:     IsFqdnSpec(s) ==> ret0 == s
+//@   ensures noorig: !IsFqdnSpec(s) && len(origin) == 0 ==> ret0 == s
+//@   ensures apex:   !IsFqdnSpec(s) && len(origin) > 0 && (len(s) == 0 || (len(s) == 1 && s[0] == '@')) ==> ret0 == origin
+//@   ensures rootorig: !IsFqdnSpec(s) && len(s) > 0 && !(len(s) == 1 && s[0] == '@') && isdot(origin) ==> len(ret0) == len(s) + 1 && ret0[len(s)] == '.' && (forall k in 0..len(s) :: ret0[k] == s[k])
+//@   ensures join:   !IsFqdnSpec(s) && len(s) > 0 && !(len(s) == 1 && s[0] == '@') && len(origin) > 0 && !isdot(origin) ==> len(ret0) == len(s) + 1 + len(origin) && ret0[len(s)] == '.' && (forall k in 0..len(s) :: ret0[k] == s[k]) && (forall k in 0..len(origin) :: ret0[len(s) + 1 + k] == origin[k])
+//@   pure
